@@ -421,7 +421,10 @@ func keysOf(t name.Tables) []string {
 	return ks
 }
 
-func c14Tags(r *run.Run) {
+func c14Tags(r *run.Run) { tagTablesPart(r, "C14.script-lang-tags", "C14.tags") }
+
+// tagTablesPart is shared by C14 (tag conversion) and C08 (script lists survive Encode/Read).
+func tagTablesPart(r *run.Run, name, clause string) {
 	scripts, langs := gtab.VerifTagTables()
 	var ss, ll []string
 	for k := range scripts {
@@ -433,7 +436,7 @@ func c14Tags(r *run.Run) {
 	sort.Strings(ss)
 	sort.Strings(ll)
 	ll = append([]string{""}, ll...) // "" = default language system
-	r.Explore(explore.Config{Name: "C14.script-lang-tags"}, fmt.Sprintf("every script (%d) x language (%d + default) pair of the built-in OpenType tag tables: OpenType tags -> BCP 47 -> (Info.Encode / gtab.Read) -> the same BCP 47 tag, and the emitted ScriptList carries the original 4-byte tags", len(ss), len(ll)-1),
+	r.Explore(explore.Config{Name: name}, fmt.Sprintf("every script (%d) x language (%d + default) pair of the built-in OpenType tag tables: OpenType tags -> BCP 47 -> (Info.Encode / gtab.Read) -> the same BCP 47 tag, and the emitted ScriptList carries the original 4-byte tags", len(ss), len(ll)-1),
 		func(c *explore.Ctx) {
 			script := ss[c.Choose(len(ss), "script")]
 			c.Sample(func() any { return map[string]any{"script": script, "languages": len(ll)} })
@@ -441,12 +444,12 @@ func c14Tags(r *run.Run) {
 			for _, lang := range ll {
 				tag, err := gtab.VerifOtfToBCP47(script, lang)
 				if err != nil {
-					c.Fail("C14.tags", "otf->bcp47 "+fmt.Sprintf("script %q", script), "script %q language %q has no BCP 47 form: %v", script, lang, err)
+					c.Fail(clause, "otf->bcp47 "+fmt.Sprintf("script %q", script), "script %q language %q has no BCP 47 form: %v", script, lang, err)
 					return
 				}
 				s2, l2, err := gtab.VerifBCP47ToOtf(tag)
 				if err != nil || strings.TrimRight(s2, " ") != strings.TrimRight(script, " ") && !(script == "DFLT" && s2 == "DFLT") || strings.TrimRight(l2, " ") != strings.TrimRight(lang, " ") {
-					c.Fail("C14.tags", "bcp47->otf", "script %q language %q -> %v -> script %q language %q (err=%v)", script, lang, tag, s2, l2, err)
+					c.Fail(clause, "bcp47->otf", "script %q language %q -> %v -> script %q language %q (err=%v)", script, lang, tag, s2, l2, err)
 					return
 				}
 			}
@@ -465,7 +468,7 @@ func c14Tags(r *run.Run) {
 				b := info.Encode()
 				back, err := gtab.Read(bytes.NewReader(b), gtab.TypeGsub)
 				if err != nil {
-					c.Fail("C14.tags", "gtab.Read", "script %q languages %v: Read(Encode) fails: %v", script, grp, err)
+					c.Fail(clause, "gtab.Read", "script %q languages %v: Read(Encode) fails: %v", script, grp, err)
 					return
 				}
 				var got []string
@@ -475,7 +478,7 @@ func c14Tags(r *run.Run) {
 				sort.Strings(got)
 				sort.Strings(want)
 				if fmt.Sprint(got) != fmt.Sprint(want) {
-					c.Fail("C14.tags", "binary round trip", "script %q languages %q: tags %v come back as %v", script, grp, want, got)
+					c.Fail(clause, "binary round trip", "script %q languages %q: tags %v come back as %v", script, grp, want, got)
 					return
 				}
 				// the raw ScriptList must carry the 4-byte tags
@@ -486,12 +489,12 @@ func c14Tags(r *run.Run) {
 					return s
 				}
 				if !bytes.Contains(b, []byte(pad(script))) {
-					c.Fail("C14.tags", "raw script tag", "encoded table does not contain script tag %q", pad(script))
+					c.Fail(clause, "raw script tag", "encoded table does not contain script tag %q", pad(script))
 					return
 				}
 				for _, lang := range grp[1:] {
 					if !bytes.Contains(b, []byte(pad(lang))) {
-						c.Fail("C14.tags", "raw language tag", "encoded table does not contain language tag %q", pad(lang))
+						c.Fail(clause, "raw language tag", "encoded table does not contain language tag %q", pad(lang))
 						return
 					}
 				}
